@@ -80,8 +80,22 @@ func c10Records(c *mon.Ctx, r *mon.Rand) {
 	c.Distinct(mon.Hash64(fmt.Sprint(rc), mode, fmt.Sprint(progs), fmt.Sprint(r.U64())))
 	names := []string{"t", "u", pool.names[0]}
 	nops := r.Range(3, 40)
+	// a third of the histories close one of the derived scopes part-way: timers
+	// are synchronous pass-throughs, a Record on a closed subscope (old or new
+	// timer name, before or after a pass has dropped the scope) is still forwarded
+	closeAt, closeWhich := -1, 0
+	if r.Chance(1, 3) {
+		closeAt, closeWhich = r.Intn(nops), r.Intn(len(scs))
+	}
 	c.Guard("panic-record", desc, func() {
 		for i := 0; i < nops; i++ {
+			if i == closeAt {
+				if cl, ok := scs[closeWhich].sc.(io.Closer); ok && scs[closeWhich].sc != root {
+					cl.Close()
+					ops = append(ops, fmt.Sprintf("Close scope %q%v", scs[closeWhich].id.Prefix, scs[closeWhich].id.Tags))
+					names = append(names, "after-close")
+				}
+			}
 			if r.Chance(1, 4) {
 				np, nc := len(timerEvents(logOf(prec))), len(timerEvents(logOf(crec)))
 				tally.VerifReportPass(root)
@@ -209,7 +223,12 @@ func c10Stopwatch(c *mon.Ctx, r *mon.Rand) {
 func c10Exec(c *mon.Ctx, r *mon.Rand, withSleep bool) {
 	cached := r.Bool()
 	prec, crec := mon.NewPlainRec(true), mon.NewCachedRec(true)
-	opts := tally.ScopeOptions{OmitCardinalityMetrics: true, Prefix: r.Pick("", "svc")}
+	sepArg := r.Pick("", ".", "_", ":", "__")
+	sep := sepArg
+	if sep == "" {
+		sep = "."
+	}
+	opts := tally.ScopeOptions{OmitCardinalityMetrics: true, Prefix: r.Pick("", "svc"), Separator: sepArg}
 	if cached {
 		opts.CachedReporter = crec
 	} else {
@@ -233,7 +252,7 @@ func c10Exec(c *mon.Ctx, r *mon.Rand, withSleep bool) {
 	var wantOK, wantErr int64
 	var outcomes []string
 	desc := func() interface{} {
-		return map[string]interface{}{"cached": cached, "prefix": opts.Prefix, "name": name, "outcomes": outcomes}
+		return map[string]interface{}{"cached": cached, "prefix": opts.Prefix, "separator": sepArg, "name": name, "outcomes": outcomes}
 	}
 	var minLatency []time.Duration
 	c.Guard("panic-exec", desc, func() {
@@ -287,13 +306,13 @@ func c10Exec(c *mon.Ctx, r *mon.Rand, withSleep bool) {
 	}
 	var gotOK, gotErr int64
 	var lat []mon.Event
-	base := mon.RefName(opts.Prefix, ".", func() []string {
+	base := mon.RefName(opts.Prefix, sep, func() []string {
 		if sc != tally.Scope(root) {
 			return []string{"sub"}
 		}
 		return nil
 	}()...)
-	cname := mon.RefName(base, ".", name)
+	cname := mon.RefName(base, sep, name)
 	for _, e := range log {
 		switch e.Kind {
 		case mon.EvCounter:
@@ -305,7 +324,7 @@ func c10Exec(c *mon.Ctx, r *mon.Rand, withSleep bool) {
 				c.Violation("exec-unexpected-counter", map[string]interface{}{"why": fmt.Sprintf("counter %q %v", e.Name, e.Tags), "case": desc()})
 			}
 		case mon.EvTimer:
-			if e.Name != mon.RefName(cname, ".", "latency") {
+			if e.Name != mon.RefName(cname, sep, "latency") {
 				c.Violation("exec-unexpected-timer", map[string]interface{}{"why": fmt.Sprintf("timer %q", e.Name), "case": desc()})
 			}
 			lat = append(lat, e)
@@ -324,7 +343,7 @@ func c10Exec(c *mon.Ctx, r *mon.Rand, withSleep bool) {
 			}
 		}
 	}
-	c.Distinct(mon.Hash64(fmt.Sprint(cached, opts.Prefix, name, outcomes)))
+	c.Distinct(mon.Hash64(fmt.Sprint(cached, opts.Prefix, sepArg, name, outcomes)))
 }
 
 // snapTimer returns the snapshot entries with the given name and tags.
